@@ -73,6 +73,13 @@ class Folder:
                     dims.append(len(v))
                     v = v[0] if v else None
                 return dims
+            if node.attr == "ndim":
+                v = self.fold(node.value)
+                d = 0
+                while isinstance(v, list):
+                    d += 1
+                    v = v[0] if v else None
+                return d
             if node.attr in ("values", "indices"):
                 v = self.fold(node.value)
                 if isinstance(v, list) and len(v) == 2:
@@ -190,6 +197,14 @@ class Folder:
                 raise Unfoldable("bit_length of a non-integer")
             if m in ("to", "float", "int", "long", "double", "type", "clone", "contiguous", "item", "detach"):
                 return self.fold(node.func.value)
+            if m == "size" and len(node.args) <= 1 and not node.keywords:
+                dims = self.fold(ast.Attribute(value=node.func.value, attr="shape", ctx=ast.Load()))
+                if not node.args:
+                    return dims
+                i = self.fold(node.args[0])
+                if isinstance(i, int) and not isinstance(i, bool) and -len(dims) <= i < len(dims):
+                    return dims[i]
+                raise Unfoldable("size index")
             if m == "unsqueeze" and len(node.args) == 1:
                 v, d = self.fold(node.func.value), self.fold(node.args[0])
                 if d == 0:
